@@ -305,7 +305,9 @@ def check_models(rep, tier, rng, drv, runner):
     impl, p1 = run_sharded(drv, lines, env=san_env())
     model, p2 = run_sharded(runner, [l[1:] for l in lines])
     for pr in p1:
-        rep.violation(f"buffer/arena driver died (rc={pr[1]}): {pr[2][-400:]}", {"case": pr[3]})
+        m = re.search(r"(ERROR: AddressSanitizer: [^\n]*|runtime error: [^\n]*)", pr[2])
+        rep.violation(f"carquet_buffer_append / carquet_arena_alloc with a denied request crashed (driver rc={pr[1]}): "
+                      f"{m.group(1) if m else pr[2][-300:]}", {"case": pr[3]})
     for pr in p2:
         rep.tie_broken(f"model runner died (rc={pr[1]}): {pr[2][-300:]}", pr[3])
     for li, a, b in zip(lines, impl, model):
@@ -341,7 +343,6 @@ def run(tier):
     except vlib.BuildError as e:
         rep.tie_broken("harness does not build against the current tree: " + str(e)[:700])
         return rep.finish()
-    check_models(rep, tier, rng, drv, runner)
     tab = site_table()
     notok = [f"{r['file']}:{r['line']} {r['func']} -> {r['callee']} ({r['cls']})" for rows in tab.values() for r in rows if r["cls"] in ("Ignored", "Unchecked")]
     rep.cov["site_table"] = {"rows": sum(len(v) for v in tab.values()), "not_checked": notok[:40]}
@@ -351,6 +352,7 @@ def run(tier):
     rep.cov["site_table"]["functions_observed"] = len(seen)
     rep.cov["site_table"]["functions_observed_without_row"] = sorted(f"{f}:{fn}" for (f, fn), st in seen.items() if st["rows"] == 0)
     rep.cov["site_table"]["flagged_but_never_observed_bad"] = sorted(f"{f}:{fn}" for (f, fn), st in seen.items() if st["bad_rows"] and not st["bad_obs"])
+    check_models(rep, tier, rng, drv, runner)
     rep.cov["input_distribution"] = {"scenarios": len(scs), "requests_failed": nrec,
                                      "K_per_scenario": {short(s): int(base[s][0]["K"]) for s in base}}
     rep.cov["per_site"] = {k: v for k, v in sorted(per_site.items())}
